@@ -51,6 +51,32 @@ func (p *Package) Source(i int) string {
 
 func (p *Package) FileName(i int) string { return fmt.Sprintf("f%d.go", i) }
 
+// Hollow returns a copy of p in which the bodies of the result-less functions
+// selected by pick (called with the index of every candidate declaration) are
+// replaced by blank lines: every declaration stays on its line, the references
+// made from those bodies disappear.
+func (p *Package) Hollow(pick func(decl int) bool) *Package {
+	q := *p
+	q.Decls = append([]Decl(nil), p.Decls...)
+	for i, d := range q.Decls {
+		if d.Kind != "func" || !strings.HasSuffix(d.Text, "}") {
+			continue
+		}
+		lines := strings.Split(d.Text, "\n")
+		if len(lines) < 3 || !strings.HasSuffix(lines[0], "() {") || strings.HasPrefix(lines[0], "func main") {
+			continue
+		}
+		if !pick(i) {
+			continue
+		}
+		for k := 1; k < len(lines)-1; k++ {
+			lines[k] = ""
+		}
+		q.Decls[i].Text = strings.Join(lines, "\n")
+	}
+	return &q
+}
+
 type method struct {
 	name string
 	ptr  bool
@@ -136,7 +162,7 @@ func (g *gen) fieldsOf(s structT) []string {
 // stmt produces one statement that references package-level objects.
 func (g *gen) stmt() string {
 	for try := 0; try < 8; try++ {
-		k := g.pick("ref", 20)
+		k := g.pick("ref", 24)
 		if g.noCalls {
 			k = []int{4, 5, 6, 7, 8, 14}[g.pick("refinit", 6)]
 		}
@@ -286,6 +312,62 @@ func (g *gen) stmt() string {
 				}
 				return "_ = " + n + "(2)"
 			}
+		case 20, 21:
+			// a type declared inside a function body that satisfies an interface only through an embedded field
+			if len(g.ifaces) > 0 && len(g.structs) > 0 {
+				i := g.ifaces[g.pick("if", len(g.ifaces))]
+				var cands []structT
+				for _, s := range g.structs {
+					if s.embed != "" && s.embedP {
+						continue
+					}
+					ms := g.methodSet(s, true)
+					ok := true
+					for _, m := range i.methods {
+						if !ms[m] {
+							ok = false
+						}
+					}
+					if ok {
+						cands = append(cands, s)
+					}
+				}
+				if len(cands) > 0 {
+					s := cands[g.pick("localembed", len(cands))]
+					g.feat["local-type-embedding"] = true
+					emb := s.name
+					lit := "&loc{}"
+					if g.chance("localembedptr", 1, 3) {
+						emb = "*" + s.name
+						lit = "&loc{" + s.name + ": &" + s.name + "{}}"
+					}
+					extra := ""
+					if g.chance("localextra", 1, 2) {
+						extra = "\t\t\textra int\n"
+					}
+					call := ""
+					if len(i.methods) > 0 && g.chance("icall", 1, 2) {
+						call = "\n\t\ti." + methodCall[i.methods[g.pick("im", len(i.methods))]]
+					}
+					return "{\n\t\ttype loc struct {\n\t\t\t" + emb + "\n" + extra + "\t\t}\n\t\tvar i " + i.name + " = " + lit + call + "\n\t\t_ = i\n\t}"
+				}
+			}
+		case 22:
+			// other function-local named types and aliases over package-level types
+			if len(g.structs) > 0 {
+				s := g.structs[g.pick("st", len(g.structs))]
+				g.feat["local-type"] = true
+				switch g.pick("localform", 4) {
+				case 0:
+					return "{\n\t\ttype loc " + s.name + "\n\t\tvar x loc\n\t\t_ = x\n\t}"
+				case 1:
+					return "{\n\t\ttype loc = " + s.name + "\n\t\tvar x loc\n\t\t_ = x\n\t}"
+				case 2:
+					return "{\n\t\ttype loc []*" + s.name + "\n\t\t_ = loc(nil)\n\t}"
+				default:
+					return "{\n\t\ttype loc struct {\n\t\t\tinner " + s.name + "\n\t\t\tn     int\n\t\t}\n\t\t_ = loc{n: 1}\n\t}"
+				}
+			}
 		case 18:
 			if len(g.funcs) > 0 {
 				g.feat["func-value"] = true
@@ -374,6 +456,15 @@ func Generate(t *rapid.T, pkgName string) *Package {
 	for i := 0; i < nv; i++ {
 		g.vars = append(g.vars, fmt.Sprintf("v%d", i))
 	}
+	// a var spec with several names (one shared multi-value initializer, one value per name, or none)
+	multi := -1
+	if g.chance("multivar", 1, 2) {
+		multi = g.pick("multikind", 4)
+		g.vars = append(g.vars, "w0", "w1")
+		if multi == 3 {
+			g.vars = append(g.vars, "w2")
+		}
+	}
 	nc := g.pick("nconsts", 3)
 	for i := 0; i < nc; i++ {
 		g.consts = append(g.consts, fmt.Sprintf("c%d", i))
@@ -444,7 +535,27 @@ func Generate(t *rapid.T, pkgName string) *Package {
 	for _, f := range g.funcs {
 		add("func", fmt.Sprintf("func %s() %s", f, g.body(g.pick("nstmts", 4))))
 	}
+	switch multi {
+	case 0:
+		g.feat["multi-name-var-shared-init"] = true
+		add("func", "func pair0() (int, int) { return 1, 2 }")
+		add("var", "var w0, w1 = pair0()")
+	case 1:
+		g.feat["multi-name-var"] = true
+		add("func", "func one0() int { return 1 }")
+		add("var", "var w0, w1 = one0(), 2")
+	case 2:
+		g.feat["multi-name-var"] = true
+		add("var", "var w0, w1 int")
+	case 3:
+		g.feat["multi-name-var-shared-init"] = true
+		add("func", "func triple0() (int, int, int) { return 1, 2, 3 }")
+		add("var", "var w0, w1, w2 = triple0()")
+	}
 	for i, v := range g.vars {
+		if strings.HasPrefix(v, "w") {
+			continue
+		}
 		switch g.pick("varkind", 3) {
 		case 0:
 			add("var", fmt.Sprintf("var %s = %d", v, i))
